@@ -25,6 +25,7 @@ COMPS = {  # component -> trace module
 KEY_ARENA = "arena_soft_reset_alloc_skips_retained_block"
 KEY_FMT = "string_format_exact_fit_drops_last_char"
 KEY_SELF = "string_append_self_reads_released_buffer"
+KEY_DYN = "arena_hard_reset_without_chain_keeps_dynamic_blocks"
 
 
 class SubCtx:
@@ -64,23 +65,33 @@ def parse_behaviours(out):
                     break
                 continue
             j += 1
-        res.append(tla_to_json(out[i:j])[1])
+        t = tla_to_json(out[i:j])
+        res.append((t[1], t[2]))
     return res
 
 
-def export_behaviours(ctx, comp, depth, k, cap):
-    cfg = ctx.path(f"mc_{comp}.cfg")
-    open(cfg, "w").write(f'SPECIFICATION Spec\nCONSTANTS\n  Comp = "{comp}"\n  Depth = {depth}\n  K = {k}\nINVARIANTS Sane Export\n')
-    r = vlib.run_tlc(ctx, os.path.join(SPEC, "AdtMC.tla"), cfg, workers=4, timeout=1200, heap="6g", tag=f"mc_{comp}")
-    vlib.tlc_must_ok(ctx, r, f"AdtMC {comp} depth {depth}")
-    beh = parse_behaviours(r.out)
-    beh.sort(key=json.dumps)
-    total = len(beh)
-    if total > cap:                       # deterministic thinning keeps the run inside the tier budget
-        step = total / cap
-        beh = [beh[int(i * step)] for i in range(cap)]
-    ctx.log(f"AdtMC {comp}: {r.distinct} states, {total} behaviours of length {depth} ({len(beh)} replayed)")
-    return beh, r.distinct
+def export_behaviours(ctx, params):
+    """One TLC run enumerates every container: params = {comp: (depth, alphabet, cap)}."""
+    cfg = ctx.path("mc.cfg")
+    d = {c: params[c][0] for c in params}
+    comps = ", ".join(f'"{c}"' for c in params)
+    open(cfg, "w").write(f"SPECIFICATION Spec\nCONSTANTS\n  Comps = {{{comps}}}\n  DTree = {d['tree']}\n  DList = {d['list']}\n"
+                         f"  DVec = {d['vector']}\n  DBit = {d['bitset']}\n  KTree = {params['tree'][1]}\n  KList = {params['list'][1]}\n"
+                         "INVARIANTS Sane Export\n")
+    r = vlib.run_tlc(ctx, os.path.join(SPEC, "AdtMC.tla"), cfg, workers=8, timeout=1500, heap="8g", tag="mc")
+    vlib.tlc_must_ok(ctx, r, "AdtMC")
+    res = {}
+    allb = parse_behaviours(r.out)
+    for comp, (depth, k, cap) in params.items():
+        beh = sorted((b[1] for b in allb if b[0] == comp), key=json.dumps)
+        total = len(beh)
+        if total > cap:                       # deterministic thinning keeps the run inside the tier budget
+            step = total / cap
+            beh = [beh[int(i * step)] for i in range(cap)]
+        ctx.log(f"AdtMC {comp}: {total} behaviours of length {depth} ({len(beh)} replayed)")
+        res[comp] = (beh, total)
+    ctx.log(f"AdtMC: {r.distinct} distinct states, sanity invariants hold")
+    return res, r.distinct
 
 
 def fixed_scripts():
@@ -99,6 +110,9 @@ def fixed_scripts():
                                                            ["rep", 12, "reusable", 200], ["reset", "hard"], ["zeroed", 64]]})
     s.append({"c": "arena", "arena": [4096, 100], "ops": [["oneshot", 80], ["oneshot", 8], ["reusable", 16], ["dup", 33, 1], ["reset", "soft"],
                                                           ["oneshot", 80], ["oneshot", 4000], ["oneshot", 8000], ["reset", "soft"], ["oneshot", 4040]]})
+    # an arena that only ever handed out dynamic (> 2048 byte) blocks, then hard reset / destruction
+    s.append({"c": "arena", "arena": [4096, 0], "ops": [["reusable", 4303], ["reset", "hard"], ["reusable", 3000], ["reusable", 100], ["reset", "hard"]]})
+    s.append({"c": "arena", "arena": [1024, 0], "ops": [["rzeroed", 2049], ["reusable", 9000], ["free", 1], ["reset", "soft"], ["reusable", 2100]]})
     # printf-style formatting whose output fills the remaining capacity exactly
     k = [107] * 300
     s.append({"c": "string", "ops": [["chars", 1, 0, [], 97, 300, 0], ["fmts", 1, 0, [], 0, 1, 0]]})          # append, remaining >= 128
@@ -128,6 +142,8 @@ def classify(comp, rej):
                 soft = r["op"][1] == "soft"
         prev = recs[idx - 1].get("st") or {}
         chain, cur = prev.get("chain", []), prev.get("cur", 0)
+        if bad["op"][0] == "reset" and bad["op"][1] == "hard" and not prev.get("chain") and prev.get("dyn") and bad["st"].get("dyn"):
+            return KEY_DYN, what
         if soft and inv == "ChainOk" and bad["st"].get("bad") and len(chain) >= cur + 2 and bad["op"][0] in ("oneshot", "zeroed", "reusable", "rzeroed", "dup", "ext"):
             return KEY_ARENA, what
     if comp == "string":
@@ -157,27 +173,19 @@ def run(ctx):
     ctx.build("plain", "adt")
 
     # ---- 1. abstract types: model checking + behaviour export -------------------------------------------------
-    params = {"tree": (6, 5, 4000), "list": (4, 4, 3000), "vector": (4, 0, 1500), "bitset": (3, 0, 1500)} if q else \
+    params = {"tree": (6, 5, 5000), "list": (4, 4, 4000), "vector": (4, 0, 1500), "bitset": (3, 0, 1500)} if q else \
              {"tree": (7, 5, 30000), "list": (5, 3, 20000), "vector": (4, 0, 12000), "bitset": (3, 0, 12000)}
     scripts = []
     mc_states = {}
 
-    def mc(item):
-        comp, (depth, k, cap) = item
-        sub = SubCtx(ctx)
-        beh, st = export_behaviours(sub, comp, depth, k, cap)
-        return comp, k, beh, st, sub
-    with ThreadPoolExecutor(max_workers=4) as ex:
-        for comp, k, beh, st, sub in ex.map(mc, params.items()):
-            ctx.states += sub.states
-            ctx.transitions += sub.transitions
-            ctx.tlc_cmds += sub.tlc_cmds
-            mc_states[comp] = st
-            for i, b in enumerate(beh):
-                sc = {"c": comp, "arena": [[1024, 0], [1024, 256], [4096, 0]][i % 3], "ops": b}
-                if comp == "list":
-                    sc["nodes"] = k
-                scripts.append(sc)
+    res, nst = export_behaviours(ctx, params)
+    mc_states = {"distinct_states": nst, **{c: res[c][1] for c in res}}
+    for comp, (beh, total) in res.items():
+        for i, b in enumerate(beh):
+            sc = {"c": comp, "arena": [[1024, 0], [1024, 256], [4096, 0]][i % 3], "ops": b}
+            if comp == "list":
+                sc["nodes"] = params["list"][1]
+            scripts.append(sc)
     ctx.extra["mc_states"] = mc_states
     sp = ctx.path("scripts.ndjson")
     vlib.write_ndjson(sp, scripts)
@@ -187,7 +195,7 @@ def run(ctx):
 
     # ---- 2./3. execute on the real code -------------------------------------------------------------------------
     runs = []          # (tag, prefix)
-    nshard, nexec, steps = (6, 70, 260) if q else (14, 150, 400)
+    nshard, nexec, steps = (6, 100, 260) if q else (14, 150, 400)
 
     def rnd(i):
         if i < 0:
@@ -210,7 +218,7 @@ def run(ctx):
     # ---- 4. trace validation (one TLC per component and shard, in parallel) ------------------------------------
     # Few, large trace files: all executions of one component (scripts and every random shard) are concatenated
     # and cut into chunks of at most CHUNK events - the JVM start dominates short validations.
-    CHUNK = 9000 if q else 40000
+    CHUNK = 80000 if q else 60000
     tasks = []
     for comp, mod in COMPS.items():
         execs = []
@@ -254,7 +262,7 @@ def run(ctx):
             results.append((task, sub, rej))
             timing[tag] = (round(_t.time() - t0, 1), sum(len(e) for e in part))
     tasks.sort(key=lambda t: -os.path.getsize(t[3]))          # longest first
-    with ThreadPoolExecutor(max_workers=14) as ex:
+    with ThreadPoolExecutor(max_workers=6) as ex:      # vlib admits at most 7 TLC JVMs machine-wide
         list(ex.map(validate, tasks))
     os.environ.pop("JAVA_TOOL_OPTIONS", None)
     ctx.log(f"{len(tasks)} trace files validated; slowest (s, events):", sorted(timing.items(), key=lambda kv: -kv[1][0])[:4])
